@@ -262,7 +262,7 @@ func (x *Exec) get(st *State, v ssa.Value) Val {
 	case *ssa.Global:
 		return x.globalPtr(c)
 	case *ssa.Function:
-		return Val{K: VFunc, Typ: c.Type(), Fn: c}
+		return Val{K: VFunc, Typ: c.Type(), Fn: c, T: strCode("func:" + c.String())}
 	case *ssa.Builtin:
 		return Val{K: VOpaque, Typ: c.Type()}
 	}
@@ -881,7 +881,7 @@ func (x *Exec) step(st *State, in ssa.Instruction) {
 		x.typeAssert(st, i)
 	case *ssa.MakeClosure:
 		fn := i.Fn.(*ssa.Function)
-		cv := Val{K: VFunc, Typ: i.Type(), Fn: fn}
+		cv := Val{K: VFunc, Typ: i.Type(), Fn: fn, T: x.freshRef(st)}
 		for _, b := range i.Bindings {
 			cv.Bind = append(cv.Bind, x.get(st, b))
 		}
